@@ -311,8 +311,69 @@ def run(fx, R, tier):
         rec = fx.records[gq]
         dim = int(gq.rstrip('>').split(',')[-1])
         check_wrap(fx, R, gq, dim)
+        check_tables(fx, R, gq, dim)
         check_translate(fx, R, gq, dim)
         check_dispatch(fx, R, gq)
+
+
+def check_tables(fx, R, gq, dim):
+    """O1 (E-STEP): the two tables every access goes through are evaluated from the constructors on witness sizes: the linear-index coefficients must be (1, n0, n0*n1) and the member the backward
+    stepping uses must be n - 1 on every axis (a cell is reached by one storage index only, and (x + n - 1) mod n steps back by one)."""
+    from .. import mini
+    from .C20 import deep_unwrap as _du
+    cname = gname(gq)
+    rec = fx.records.get(gq) or {}
+    base = (rec.get('bases') or [None])[0]
+    inits = [f for f in fx.fn((base or gq) + '::init') if f.get('body') is not None and len(f.get('params', [])) == 1]
+    if len(inits) == 1:
+        f = inits[0]
+        R.used(f)
+        bad = why = None
+        for sizes in ((3, 4, 5), (1, 1, 1), (8, 2, 7), (2, 5, 3)):
+            env = {'this.numberOfCellsAlongAxes_': list(sizes[:dim]), f['params'][0]['name']: list(sizes[:dim]), 'this.indexCoefficients_': [None] * dim, 'DIM': dim}
+            S_ = mini.Step(_du)
+            S_.hooks['.resize'] = lambda t, env_: 0
+            S_.hooks['.prod'] = lambda t, env_: 0
+            try:
+                S_.call(f['body'], env)
+            except (mini.Unsupported, TypeError, IndexError, KeyError) as u:
+                why = str(u)[:120]
+                break
+            want = [1, sizes[0], sizes[0] * sizes[1]][:dim]
+            if env['this.indexCoefficients_'] != want:
+                bad = bad or (sizes[:dim], env['this.indexCoefficients_'], want)
+        if why:
+            R.undecided('O1', '%s::init:index-coefficients' % cname, 'constructor helper not steppable: %s' % why)
+        elif bad:
+            R.violated('O1', '%s::init:index-coefficients' % cname.split('<')[0], 'for a grid of %s cells the linear-index coefficients are set to %s, not %s: two cells share a storage position (or a coefficient is never '
+                       'written), so a cell does not read the value it was given' % (bad[0], bad[1], bad[2]), fx.rel(f['loc']), 'E-STEP')
+        else:
+            R.holds('O1', '%s::init:index-coefficients' % cname, 'coefficients (1, n0, n0 n1) on 4 witness sizes', fx.rel(f['loc']), 'E-STEP')
+    for c_ in [f for f in fx.functions.values() if f.get('ctor') and f.get('cls') == gq and f.get('body') is not None and not f.get('copyctor') and len(f.get('params', [])) == 1]:
+        R.used(c_)
+        init = next((i_ for i_ in c_.get('inits', []) if i_.get('field') == 'numberOfCellsAlongAxesMinusOne_'), None)
+        if init is None:
+            continue
+        bad = why = None
+        for n_ in (1, 3, 8):
+            S_ = mini.Step(_du)
+            for h_ in ('Eigen::DenseBase', 'Ones'):
+                pass
+            S_.fallback = lambda t, env_: 1 if isinstance(t[0], str) and t[0].endswith('::Ones') else 0 if isinstance(t[0], str) and t[0].endswith('::Zero') else NotImplemented
+            try:
+                v_ = S_.ev(_du(sx(init['e'])), {'this.numberOfCellsAlongAxes_': n_, c_['params'][0]['name']: n_})
+            except (mini.Unsupported, TypeError) as u:
+                why = str(u)[:120]
+                break
+            if v_ != n_ - 1:
+                bad = bad or (n_, v_)
+        if why:
+            R.undecided('O1', '%s:cells-minus-one' % cname, 'initialiser not evaluable: %s' % why)
+        elif bad:
+            R.violated('O1', '%s:cells-minus-one' % cname.split('<')[0], 'the member the backward stepping uses, numberOfCellsAlongAxesMinusOne_, is initialised to %s for an axis of %d cells, not %d: '
+                       '(x + that) mod n does not step back by one cell, so a negative translation blanks other columns than the ones entering the window' % (bad[1], bad[0], bad[0] - 1), fx.rel(c_['loc']), 'E-STEP')
+        else:
+            R.holds('O1', '%s:cells-minus-one' % cname, 'n - 1 on witness sizes 1, 3, 8', fx.rel(c_['loc']), 'E-STEP')
 
 
 def check_dispatch(fx, R, gq):
